@@ -131,8 +131,14 @@ impl AsyncRead for PipeEnd {
 impl AsyncWrite for PipeEnd {
     fn poll_write(self: Pin<&mut Self>, _cx: &mut Context<'_>, data: &[u8]) -> Poll<io::Result<usize>> {
         let mut g = self.tx.lock().unwrap();
-        if g.killed || g.reader_gone {
+        if g.killed {
             return Poll::Ready(Err(io::Error::new(io::ErrorKind::BrokenPipe, "peer gone")));
+        }
+        if g.reader_gone {
+            // the peer has closed its end in an orderly way: like a TCP socket, the pipe still takes the bytes (they
+            // go nowhere); the writer learns about the close when it reads (EOF) - after whatever the peer had sent
+            g.written += data.len() as u64;
+            return Poll::Ready(Ok(data.len()));
         }
         if g.closed {
             return Poll::Ready(Err(io::Error::new(io::ErrorKind::BrokenPipe, "write after shutdown")));
